@@ -233,19 +233,26 @@ def transpile_structure(
             + indent_str("    ctx.context_values.pop()", indent)
         )
     if isinstance(struct, vyxal.structure.WhileLoop):
+        # The condition is evaluated inside the Python loop, under its own
+        # copy of the enclosing context value: a break or continue inside
+        # the condition pops exactly that entry and acts on this loop.
         return (
-            transpile_ast(struct.condition, indent, dict_compress=dict_compress)
-            + indent_str("condition = pop(stack, 1, ctx=ctx)", indent)
-            + indent_str("while boolify(condition, ctx):", indent)
+            indent_str("while True:", indent)
+            + indent_str(
+                "    ctx.context_values.append(ctx.context_values[-1])", indent
+            )
+            + transpile_ast(
+                struct.condition, indent + 1, dict_compress=dict_compress
+            )
+            + indent_str("    condition = pop(stack, 1, ctx=ctx)", indent)
+            + indent_str("    ctx.context_values.pop()", indent)
+            + indent_str("    if not boolify(condition, ctx):", indent)
+            + indent_str("        break", indent)
             + indent_str("    ctx.context_values.append(condition)", indent)
             + transpile_ast(
                 struct.body, indent + 1, dict_compress=dict_compress
             )
             + indent_str("    ctx.context_values.pop()", indent)
-            + transpile_ast(
-                struct.condition, indent + 1, dict_compress=dict_compress
-            )
-            + indent_str("    condition = pop(stack, 1, ctx=ctx)", indent)
         )
     if isinstance(struct, vyxal.structure.FunctionCall):
         var = re.sub("[^A-Za-z0-9_]", "", struct.name)
